@@ -125,7 +125,7 @@ void check_interval(const S& sk, const char* who, double est) {
   for (uint8_t sd = 1; sd <= 3; ++sd) {
     double lb = sk.get_lower_bound(sd), ub = sk.get_upper_bound(sd);
     VF_CHECK(std::isfinite(lb) && std::isfinite(ub) && lb >= 0, "sketch-bounds-finite", who << ": lb " << lb << " ub " << ub);
-    VF_CHECK(lb <= est && est <= ub, "sketch-bounds-order", who << ": lb " << lb << " est " << est << " ub " << ub << " at " << int(sd));
+    VF_CHECK(lb <= est * (1 + 1e-9) && est <= ub * (1 + 1e-9), "sketch-bounds-order", who << ": lb " << lb << " est " << est << " ub " << ub << " at " << int(sd));  // relative 1e-9: HLL lower bound is clamped to an integer the bitmap estimate can round just below
     VF_CHECK(lb <= plb && ub >= pub, "sketch-bounds-widen", who << ": interval shrinks at " << int(sd));
     plb = lb; pub = ub;
   }
